@@ -184,7 +184,8 @@ def compute_polymer_connection(
     padded = False
     if matrix.shape[2] == 1:
         padded = True
-        matrix = jnp.pad(matrix, pad_width=((0, 0), (0, 0), (1, 1)))
+        # pad above only, so that index 0 stays the (single) bottom layer that seeds the fill
+        matrix = jnp.pad(matrix, pad_width=((0, 0), (0, 0), (0, 2)))
     n4_kernel = jnp.asarray(
         [
             [0, 1, 0],
@@ -222,7 +223,7 @@ def compute_polymer_connection(
     _, connected = jax.lax.while_loop(_cond_fn, _step_fn, (connected, _body_fn(0, connected)))
 
     if padded:
-        connected = connected[..., 1:2]
+        connected = connected[..., 0:1]
     return connected
 
 
